@@ -67,6 +67,27 @@ def compute_mu_h(levy_measure, grid: CTMCGrid, axis: np.array, origin: int) -> f
     return mu_h
 
 
+def running_values_over_intervals(values: list[np.array], dimension: int = None):
+    """The chain values are simulated interval by interval, each interval starting from the origin. This function
+    shifts the values of every interval by the value reached at the end of the previous ones and concatenates them:
+    the result is the running sum of the jumps over the whole path.
+
+    :param values: for each time interval, the running sums of the jumps inside this interval
+    :param dimension: None in dimension one, where the values of an interval have the shape (nb_of_jumps,),
+                      otherwise they have the shape (nb_of_jumps, dimension)
+    :return: array of shape (total nb_of_jumps,) or (total nb_of_jumps, dimension)
+    """
+    shape = (0,) if dimension is None else (0, dimension)
+    offset = np.zeros(shape=shape[1:])
+    shifted = [np.empty(shape=shape)]
+    for interval_values in values:
+        interval_values = np.asarray(interval_values, dtype=float)
+        if interval_values.shape[0]:
+            shifted.append(interval_values + offset)
+            offset = shifted[-1][-1]
+    return np.concatenate(shifted, axis=0)
+
+
 class MarkovChain:
     """Markov Chain object storing the simulation times, its values and state increments."""
 
@@ -256,7 +277,7 @@ class MCSimulationWithJumpTimes(MCSimulation, SimulationWithJumpTimes):
 
     def simulate_jumps(self):
         mc = self.simulate_markov_chain()
-        jump_values = np.concatenate(mc.values).ravel().astype(float)
+        jump_values = running_values_over_intervals(mc.values)
         jump_times = mc.times
         return jump_times, jump_values
 
